@@ -55,6 +55,8 @@ def _call(args):
     try:
         import contextlib
         import io
+        from . import qlib
+        qlib.set_phase(args)                                   # layout / storage-variant cycles start from a function of the job, not of the worker's history
         with contextlib.redirect_stdout(io.StringIO()):      # the library prints progress / warnings; verdict lines are printed by core only
             return _F(args)
     except Exception:
